@@ -243,6 +243,10 @@ func runC13(c *Ctx) {
 	ruleFillShape(c)
 	ruleFillValue(c)
 	ruleRecipientsInOrder(c)
+	// "one reply per accepted RCPT of that message": the recipient list the replies are produced from is cleared when
+	// the message ends, in LMTP mode too, so the next message on the connection is answered for its own recipients only
+	R.Rule("R-envelope-per-message", "E2 must-pass-through", "once a message has been taken (354 sent, final or failed chunk answered) every path to the handler's return runs reset(): the recipient list of the next LMTP message starts empty", 3)
+	obMessageEndResets(c)
 	// the BDAT collector is sized for the recipients accepted so far: from the moment it exists no further RCPT may
 	// be accepted, which handleRcpt decides by "a pipe is open" — so handleBdat never returns with a collector
 	// but without a pipe
